@@ -6,6 +6,7 @@ NEXT Next
 INVARIANT NeverForOther
 INVARIANT HonestAccepted
 INVARIANT RsaNotDeviceBound
+INVARIANT HistoryBound
 INVARIANT Layout
 INVARIANT Emit
 CHECK_DEADLOCK FALSE
